@@ -29,8 +29,8 @@ Theorem C13_current_plan_partial : forall gen ws seed a a',
 Proof. exact current_plan_partial. Qed.
 Print Assumptions C13_current_plan_partial.
 
-(* ... and that region contains positive-mode fuzzing and stateful testing without multipart bodies
-   (hypothesis.seed(config.seed) in create_test, hypothesis.seed(seed) on the state machine) *)
+(* ... and that region contains fuzzing and stateful testing, positive and negative mode, without multipart bodies
+   (hypothesis.seed(config.seed) in create_test, hypothesis.seed(seed) on the state machine; no observable set iteration) *)
 Theorem C13_fuzzing_stateful_partial : forall gen ws seed a a',
   works_in seeded_region_today ws = true -> run gen (gen_sites, ws) seed a = run gen (gen_sites, ws) seed a'.
 Proof. exact fuzzing_stateful_deterministic. Qed.
@@ -57,22 +57,36 @@ Theorem C13_multipart_refuted :
 Proof. exact multipart_refuted. Qed.
 Print Assumptions C13_multipart_refuted.
 
-(* iteration over a set of strings is observable: negative-mode mutations (fuzzing, stateful) and example extraction *)
-Theorem C13_hash_order_refuted :
-  ambient_kind_active HashOrder gen_sites fuzz_neg = true /\ ambient_kind_active HashOrder gen_sites st_neg = true
-  /\ ambient_kind_active HashOrder gen_sites ex_pos = true
-  /\ exists gen seed a a', run gen (gen_sites, [mkWork 0 fuzz_neg 0 1]) seed a <> run gen (gen_sites, [mkWork 0 fuzz_neg 0 1]) seed a'.
-Proof. exact hash_order_refuted. Qed.
-Print Assumptions C13_hash_order_refuted.
+(* HashOrder (findings F4, F5 - FIXED by a5c169d7 / 353ffa52): today no iteration over a set of strings is observable ... *)
+Theorem C13_hash_order_fixed : forall x, ambient_kind_active HashOrder gen_sites x = false.
+Proof. exact hash_order_fixed. Qed.
+Print Assumptions C13_hash_order_fixed.
+
+(* ... the plan of the source before the fixes is kept as a labelled sentinel: it is refuted (negative fuzzing / stateful, examples) ... *)
+Theorem C13_hash_order_sentinel_refuted :
+  ambient_kind_active HashOrder sentinel_sites_before_hash_fixes fuzz_neg = true
+  /\ ambient_kind_active HashOrder sentinel_sites_before_hash_fixes st_neg = true
+  /\ ambient_kind_active HashOrder sentinel_sites_before_hash_fixes ex_pos = true
+  /\ exists gen seed a a', run gen (sentinel_sites_before_hash_fixes, [mkWork 0 fuzz_neg 0 1]) seed a
+                          <> run gen (sentinel_sites_before_hash_fixes, [mkWork 0 fuzz_neg 0 1]) seed a'.
+Proof. exact hash_order_sentinel_refuted. Qed.
+Print Assumptions C13_hash_order_sentinel_refuted.
+
+(* ... and it differs from the plan of today (so the theorems above do distinguish the two sources) *)
+Theorem C13_sentinel_differs_from_current_plan :
+  ambient_table sentinel_sites_before_hash_fixes <> ambient_table gen_sites
+  /\ ctx_seeded sentinel_sites_before_hash_fixes fuzz_neg = false /\ ctx_seeded gen_sites fuzz_neg = true.
+Proof. exact sentinel_differs. Qed.
+Print Assumptions C13_sentinel_differs_from_current_plan.
 
 (* the complete attribution table of today (contexts in the order of all_ctxs: per phase pos/neg x plain/multipart):
-   3,4 = examples fill-ins, 5 = coverage draws, 7 = multipart boundary, 10,11 = example/x-example set, 12 = change_type set *)
+   3,4 = examples fill-ins, 5 = coverage draws, 7 = multipart boundary *)
 Theorem C13_current_ambient_sites :
   ambient_table gen_sites =
-  [ [3; 4; 10; 11]; [3; 4; 10; 11]; [3; 4; 7; 10; 11]; [3; 4; 7; 10; 11];
+  [ [3; 4]; [3; 4]; [3; 4; 7]; [3; 4; 7];
     [5]; [5]; [5; 7]; [5; 7];
-    []; [12]; [7]; [7; 12];
-    []; [12]; [7]; [7; 12] ].
+    []; []; [7]; [7];
+    []; []; [7]; [7] ].
 Proof. exact current_ambient_table. Qed.
 Print Assumptions C13_current_ambient_sites.
 
